@@ -39,4 +39,17 @@ CleanOK(G, V) == /\ Len(V) = Len(G)
 RandomWeightOK(G, V, lo, hi) == /\ Len(V) = Len(G)
                                 /\ \A n \in 1..Len(G) : /\ Len(V[n]) = Len(G[n])
                                                         /\ \A i \in 1..Len(G[n]) : V[n][i][1] = G[n][i][1] /\ V[n][i][2] >= lo /\ V[n][i][2] <= hi
+\* remove the nodes with more than k out-edges (and every edge from or to them); the others are renumbered in order
+Kept(G, k) == {n \in 1..Len(G) : Len(G[n]) <= k}
+NewId(G, k, n) == Cardinality({x \in Kept(G, k) : x < n})          \* 0-based new id of kept node n (1-based index)
+LowDegreeOK(G, V, k) ==
+   /\ Len(V) = Cardinality(Kept(G, k))
+   /\ \A n \in Kept(G, k) :
+        V[NewId(G, k, n) + 1] = [i \in 1..Len(SelectSeq(G[n], LAMBDA e : (e[1] + 1) \in Kept(G, k))) |->
+                                  LET e == SelectSeq(G[n], LAMBDA x : (x[1] + 1) \in Kept(G, k))[i] IN <<NewId(G, k, e[1] + 1), e[2]>>]
+\* relabel by out-degree: perm[old + 1] = new id is a bijection, degrees do not decrease along the new ids, edges follow
+SortedDegreeOK(G, V, perm) ==
+   /\ Len(V) = Len(G) /\ Len(perm) = Len(G) /\ {perm[i] : i \in 1..Len(perm)} = 0..(Len(G) - 1)
+   /\ \A a, b \in 1..Len(G) : perm[a] < perm[b] => Len(G[a]) <= Len(G[b])
+   /\ \A a \in 1..Len(G) : SameBag(V[perm[a] + 1], [i \in 1..Len(G[a]) |-> <<perm[G[a][i][1] + 1], G[a][i][2]>>])
 =============================================================================
